@@ -67,6 +67,32 @@ func checkC20(ck *Check) {
 	sort.Slice(fns, func(i, j int) bool { return funcID(fns[i]) < funcID(fns[j]) })
 	ck.floor("C20.R1", "repo functions reachable from RunOnce", len(fns), 40)
 
+	ck.panicSites(func(n int) string { return fmt.Sprintf("C20.R%d", n) }, fns)
+	ck.stopCensus("C20.R3", fns)
+	ck.fatalErrorCreation("C20.R3")
+	ck.loopCensus("C20.R4", fns)
+	ck.percentGuards("C20.R5")
+	ck.loopContainment("C20.R6")
+	ck.fallibleStores("C20.R9", fns)
+}
+
+// scanFunctions: repo functions reachable from RunOnce.
+func (ck *Check) scanFunctions() []*ssa.Function {
+	reach := ck.P.reachCut([]*ssa.Function{ck.A.RunOnce}, nil)
+	var fns []*ssa.Function
+	for fn := range reach {
+		if ck.P.inRepo(fn) && fn.Blocks != nil {
+			fns = append(fns, fn)
+		}
+	}
+	sort.Slice(fns, func(i, j int) bool { return funcID(fns[i]) < funcID(fns[j]) })
+	return fns
+}
+
+// panicSites: every potentially panicking operation of the scan-reachable functions (R1 index /
+// slice / assertion / division / explicit panic, R2 optional-value dereferences, R7 allocation
+// sizes, R8 library preconditions); rule(n) names the rule the n-th group is reported under.
+func (ck *Check) panicSites(rule func(n int) string, fns []*ssa.Function) {
 	counts := map[string]int{}
 	for _, fn := range fns {
 		ctx := ck.P.NewCtx(fn)
@@ -92,27 +118,27 @@ func checkC20(ck *Check) {
 				case *ssa.TypeAssert:
 					if !x.CommaOk {
 						counts["typeassert"]++
-						ck.fail("C20.R1", mkKey("typeassert"), ck.P.instrPos(x), funcID(fn), "type assertions on scan paths use the comma-ok form", x.String(), "an unexpected dynamic type panics the scan")
+						ck.fail(rule(1), mkKey("typeassert"), ck.P.instrPos(x), funcID(fn), "type assertions on scan paths use the comma-ok form", x.String(), "an unexpected dynamic type panics the scan")
 					}
 				case *ssa.BinOp:
 					if (x.Op == token.QUO || x.Op == token.REM) && isInteger(x.Type()) {
 						counts["intdiv"]++
 						key := mkKey("intdiv")
 						if k, ok := x.Y.(*ssa.Const); ok && k.Value != nil && constant.Sign(k.Value) != 0 {
-							ck.ok("C20.R1", key, ck.P.instrPos(x), funcID(fn), "integer divisor non-zero", "constant "+k.Value.String())
+							ck.ok(rule(1), key, ck.P.instrPos(x), funcID(fn), "integer divisor non-zero", "constant "+k.Value.String())
 							continue
 						}
 						d := ctx.Term(x.Y)
 						zero := cmpFormula(token.EQL, d, zeroTerm(x.Y.Type()))
 						imp, _, _ := Entails(ctx.PC(x), Not(zero))
-						ck.cond(imp, "C20.R1", key, ck.P.instrPos(x), funcID(fn), "integer divisor non-zero on every path", d.String(), "integer division by zero panics")
+						ck.cond(imp, rule(1), key, ck.P.instrPos(x), funcID(fn), "integer divisor non-zero on every path", d.String(), "integer division by zero panics")
 					}
 				case *ssa.Panic:
 					if strings.HasPrefix(b.Comment, "select") {
 						continue // go/ssa's unreachable arm of a blocking select
 					}
 					counts["panic"]++
-					ck.fail("C20.R3", mkKey("panic"), ck.P.instrPos(x), funcID(fn), "no explicit panic on scan paths", x.String(), "")
+					ck.fail(rule(3), mkKey("panic"), ck.P.instrPos(x), funcID(fn), "no explicit panic on scan paths", x.String(), "")
 				}
 				ck.derefSite(ctx, in, mkKey, counts)
 			}
@@ -121,16 +147,11 @@ func checkC20(ck *Check) {
 	for k, v := range counts {
 		ck.Stats["C20.R1 sites:"+k] = v
 	}
-	ck.floor("C20.R1", "index / slice sites examined", counts["index"]+counts["slice"], 10)
-	ck.floor("C20.R2", "optional-value dereference sites examined", counts["deref"], 10)
+	ck.floor(rule(1), "index / slice sites examined", counts["index"]+counts["slice"], 10)
+	ck.floor(rule(2), "optional-value dereference sites examined", counts["deref"], 10)
 
-	ck.stopCensus("C20.R3", fns)
-	ck.fatalErrorCreation("C20.R3")
-	ck.loopCensus("C20.R4", fns)
-	ck.percentGuards("C20.R5")
-	ck.loopContainment("C20.R6")
-	ck.allocationBounds("C20.R7", fns)
-	ck.libraryPreconditions("C20.R8", fns)
+	ck.allocationBounds(rule(7), fns)
+	ck.libraryPreconditions(rule(8), fns)
 }
 
 func (ck *Check) indexSite(ctx *Ctx, in ssa.Instruction, x, idx ssa.Value, mkKey func(string) string, counts map[string]int) {
